@@ -468,6 +468,16 @@ def buildMapping (m : CMol) (q : CQuery) (path : List Nat) (depth n : Nat) : Opt
     pure (qa.mapping, a.mapping)
   pure (pairs.foldl (fun d p => d.set p.1 p.2) [])
 
+/-- one expansion: load the next query atom, pick the molecule atom it hangs on (`if q_atom.back != depth: n = path[q_atom.back]`),
+    scan that atom's bond row -/
+def expandC (m : CMol) (q : CQuery) (scope : List Bool) (depth n : Nat) (path : List Nat) (matched : List Bool) :
+    Option (List Nat) := do
+  let qa ← q.atoms[depth + 1]?
+  let n' ← if qa.back != depth then path[qa.back]? else some n
+  let nAtom ← m.atoms[n']?
+  let row ← slice? m.bonds nAtom.from_ nAtom.to_
+  candidatesC m q scope qa n' matched path row
+
 /-- the `while stack:` loop -/
 def runLoopC (m : CMol) (q : CQuery) (scope : List Bool) (qdec : Nat) :
     Nat → List (Nat × Nat) → List Nat → List Bool → List Iso.Dict → Option (List Iso.Dict)
@@ -483,13 +493,8 @@ def runLoopC (m : CMol) (q : CQuery) (scope : List Bool) (qdec : Nat) :
       if n ≥ matched.length then none
       let matched := matched.set n true
       let path := path ++ [n]
-      let front := depth + 1
-      let qa ← q.atoms[front]?
-      let n' ← if qa.back != depth then path[qa.back]? else some n
-      let nAtom ← m.atoms[n']?
-      let row ← slice? m.bonds nAtom.from_ nAtom.to_
-      let cands ← candidatesC m q scope qa n' matched path row
-      runLoopC m q scope qdec fuel (cands.reverse.map (·, front) ++ stack) path matched acc
+      let cands ← expandC m q scope depth n path matched
+      runLoopC m q scope qdec fuel (cands.reverse.map (·, depth + 1) ++ stack) path matched acc
 
 /-- same potential bound as C07's machine -/
 def fuelC (m : CMol) (q : CQuery) : Nat := m.atoms.length * (m.atoms.length + 1) ^ (q.atoms.length + 1) + 1
